@@ -167,6 +167,10 @@ pub struct Profile {
     pub w_z5: u64,
     /// probability (in 1/256) that a delivery is clean (control group)
     pub clean: u64,
+    /// Z7: probability (in 1/1024) that a delivery starts a cross-variant pair - an honest triple to one
+    /// variant's verifier, followed at once by its zero-extension (512 -> 1024) or truncation (1024 -> 512)
+    /// to the other variant's verifier
+    pub z7: u64,
 }
 
 pub const PROFILE_C03: Profile = Profile {
@@ -179,6 +183,7 @@ pub const PROFILE_C03: Profile = Profile {
     w_z4: 1,
     w_z5: 3,
     clean: 10,
+    z7: 6,
 };
 
 pub const PROFILE_C06: Profile = Profile {
@@ -191,10 +196,65 @@ pub const PROFILE_C06: Profile = Profile {
     w_z4: 0,
     w_z5: 0,
     clean: 24,
+    z7: 0,
 };
+
+thread_local! {
+    /// second half of a Z7 pair, handed out by the next call of `draw`
+    static PENDING: std::cell::RefCell<Option<Delivery>> = const { std::cell::RefCell::new(None) };
+}
+
+/// Z7: an honest (msg, sig, pk) of one variant and its image in the other variant. 512 -> 1024: the
+/// public key is h followed by 512 zero coefficients, the signature's s2 likewise (each zero costs 9
+/// bits; the result fits the Falcon-1024 budget). 1024 -> 512: the first 512 coefficients of each.
+/// The images are well-formed encodings that the specification simply judges on their merits (they are
+/// almost always rejected); what they probe is state that an implementation generic over n keeps between
+/// calls and keys by content rather than by (variant, content).
+fn z7_pair(rng: &mut Prng, pools: &Pools) -> Option<(Delivery, Delivery)> {
+    let from = if rng.chance(2, 3) { 512 } else { 1024 };
+    let to = other(from);
+    let (pf, pt) = (codec::params(from), codec::params(to));
+    let (msg, sig, pk) = pools.pick_sig(rng, from);
+    let h = codec::pk_decode(pf, &pk).ok()?;
+    let frame = codec::sig_decode(pf, &sig).ok()?;
+    let s2 = codec::decompress(frame.body, from).ok()?;
+    let (h2, s22): (Vec<i64>, Vec<i64>) = if from == 512 {
+        let mut a = h.clone();
+        a.resize(1024, 0);
+        let mut b = s2.clone();
+        b.resize(1024, 0);
+        (a, b)
+    } else {
+        (h[..512].to_vec(), s2[..512].to_vec())
+    };
+    let pk2 = codec::pk_encode(pt, &h2);
+    let sig2 = codec::sig_encode(pt, frame.salt, &s22)?;
+    let first = Delivery { n: from, target: Target::Verify, bytes: sig.clone(), msg: msg.clone(), pk: pk.clone(), pristine: Some(sig), faults: vec![], origin: "Z7-first".into(), detail: format!("honest verify{} that precedes its image in the other variant", from) };
+    let second = Delivery {
+        n: to,
+        target: Target::Verify,
+        bytes: sig2,
+        msg,
+        pk: pk2,
+        pristine: None,
+        faults: vec![],
+        origin: "Z7-image".into(),
+        detail: if from == 512 { "public key and s2 zero-extended from 512 to 1024 coefficients".into() } else { "public key and s2 truncated from 1024 to 512 coefficients".into() },
+    };
+    Some((first, second))
+}
 
 /// Generate one delivery.
 pub fn draw(rng: &mut Prng, pools: &Pools, mix: &FaultMix, prof: &Profile) -> Delivery {
+    if let Some(d) = PENDING.with(|p| p.borrow_mut().take()) {
+        return d;
+    }
+    if prof.z7 > 0 && rng.below(1024) < prof.z7 {
+        if let Some((a, b)) = z7_pair(rng, pools) {
+            PENDING.with(|p| *p.borrow_mut() = Some(b));
+            return a;
+        }
+    }
     let total = prof.w_pk + prof.w_sk + prof.w_sig + prof.w_verify + prof.w_z2 + prof.w_z3 + prof.w_z4 + prof.w_z5;
     let mut r = rng.below(total);
     let src_n = if rng.chance(1, 3) { 1024 } else { 512 };
